@@ -64,7 +64,7 @@ def observe(mods, src: str, stmts, rem) -> dict | None:
     keep = [True] * len(src)
     for node in nodes:
         start, end = core.get_charnos(node, src)
-        m = re.findall(r"^\s*;\s*", src[end:])
+        m = re.findall(r"^[ \t]*;[ \t]*", src[end:])
         if m:
             end += len(m[0])
         keep[start:end] = [False] * (end - start)
